@@ -1,4 +1,5 @@
 import MW.Inv.Reach
+import MW.Inv.WorldReach
 /-!
 # C06 — Unstake batch lifecycle and timing
 -/
@@ -230,6 +231,17 @@ theorem expected_immutable (s : CState) (hr : CReach s) (e : CEv) (k : Nat) (b :
     · rename_i r hx; obtain ⟨s', out⟩ := r
       exact ⟨b, by rw [(sudo_batches hx).1]; exact hb, rfl⟩
     · exact ⟨b, hb, rfl⟩
+
+/-- the same along every history of the *chain model* (transactions with sub-message replies and
+whole-transaction rollback, ibc-hooks deliveries, acknowledgements, timeouts, stray callbacks,
+donations, clock advances; any number of steps): the contract store always satisfies the
+structural invariant (ids 1..p, single pending batch with the highest id, older batches Submitted
+or Received with their fields, request sums bounded by batch totals, packet table keyed by sequence) -/
+theorem lifecycle_every_world_history (env : Env) (info : Info) (msg : InstantiateMsg) (c0 : CState)
+    (out : List SubMsg) (hi : instantiate env info msg = .ok (c0, out)) (self pfx : String) (t hgt : Nat)
+    (evs : List MW.Chain.Event) :
+    CInv (evs.foldl (fun w e => (MW.Chain.step w e).w) (MW.Chain.bootWorld c0 self pfx t hgt)).c :=
+  MW.Chain.world_history_cinv env info msg c0 out hi self pfx t hgt evs
 
 /-- the boundary is `≥` on whole seconds: one second before the deadline the test fails,
 exactly at the deadline (and at any sub-second offset of it) it passes -/
